@@ -715,7 +715,7 @@ def run(ctx):
             run_merge_case(ctx, case, "merge/exhaustive criteria")
     ctx.mon("exhaustive (multiset, tie order) arrangements executed", n_exh)
     # 2. random lists, objects and databases
-    for _ in range(ctx.budget(6000, 160000)):
+    for _ in range(ctx.budget(5000, 160000)):
         rows = G.random_feats(rng)
         r = rng.random()
         if r < 0.35:
@@ -742,7 +742,7 @@ def run(ctx):
             ctx.classes["merge/random db with ids of the form <featuretype>_<n>"] += 1
         run_merge_case(ctx, case, "merge/random db")
     # 2b. shaped lists: a long interval with shorter ones inside it, uniform or with foreign labels inside
-    for _ in range(ctx.budget(2000, 48000)):
+    for _ in range(ctx.budget(1600, 48000)):
         rows = G.shaped_feats(rng)
         desc = G.shaped_criteria(rng)
         case = {"kind": "merge", "source": "objects", "feats": rows, "criteria": desc, "again": rng.random() < 0.3,
